@@ -29,8 +29,13 @@ package main
 // command's own status, otherwise with the error's class code
 //@ ghost var runErr error scratch
 //@ ghost var exitCodeWanted int scratch
+//@ ghost var exitAsked bool scratch
 //@ func main
 //@   site run#1 ghost runErr := result
 //@   site (*TaskRunError).TaskExitCode#1 ghost exitCodeWanted := result
-//@   site os.Exit#2 requires arg0 == exitCodeWanted && flags.ExitCode && runErr != nil                          [C03]
+//@   init exitAsked := false
+//@   site (*TaskRunError).TaskExitCode#1 ghost exitAsked := true
+//@   site (*TaskRunError).TaskExitCode#1 requires flags.ExitCode && runErr != nil                                [C03]
+//@   site os.Exit#0 requires runErr != nil && dyn(runErr) == type(*errors.TaskRunError) && flags.ExitCode ==> exitAsked && arg0 == exitCodeWanted   [C03]
+//@   site os.Exit#0 requires exitAsked ==> arg0 == exitCodeWanted                                               [C03]
 //@   site os.Exit#0 requires (runErr == nil) == (arg0 == 0)                                                     [C03]
